@@ -66,9 +66,11 @@ def model_check(tag, shape_names, props, invariants, fixobs=False, coverage=True
     return tlc.run_tlc("Scheduler", c, specdir=d, coverage=coverage, timeout=timeout, workers=workers, expect_violation=True)
 
 
-def emit_terminals(tag, shape_names, fixobs=False, timeout=1700, **env):
+def emit_terminals(tag, shape_names, fixobs=False, timeout=1700, invariants=(), props=(), **env):
+    """Prints every terminal state (one worker); further invariants / action properties may be checked in the same run."""
     d = rundir(tag + "_emit", shape_names)
     body = consts(True, fixobs, **env) + "SPECIFICATION Spec\nINVARIANT EmitTerminal\nCHECK_DEADLOCK FALSE\n"
+    body += "".join("INVARIANT %s\n" % i for i in invariants) + "".join("PROPERTY %s\n" % p for p in props)
     c = cfg(os.path.join(d, "emit.cfg"), body)
     return tlc.run_tlc("Scheduler", c, specdir=d, workers=1, timeout=timeout)
 
